@@ -28,6 +28,7 @@ func init() {
 		ctlCampaign(r, "C04")
 		ctlLiveness(r)
 		httpGenerationsLeg(r)
+		oneShellNoticeLeg(r)
 		repoTestsLeg(r, "C04")
 		freeRunLeg(r, "C04", map[string]int{"quick": 300, "thorough": 3000}[r.Tier])
 		outCampaign(r, "C04")
